@@ -342,6 +342,27 @@ UNITS += [
 ]
 
 UNITS += [
+    Unit(name="phr_from_index_pack", file=PF, anchor="pub(crate) fn from_index_pack(pack: &'a IndexPack) -> Self", within="impl<'a> PackHeaderRef<'a> {", ret_name="r", **PH,
+         functions=["repofile::packfile::PackHeaderRef::from_index_pack"],
+         rewrites=[Rw("Self(&pack.blobs)", "PackHeaderRef(pack.blobs.as_slice())", why="&Vec<T> -> &[T] coercion made explicit")],
+         contract="\n    ensures /*@header_ref_views_the_packs_blobs*/ r.0@ == pack.blobs@,\n"),
+    # the pack size the index reports: the recorded one, else derived from the blob list exactly as the packer lays the pack out
+    Unit(name="indexpack_pack_size", file=IF, anchor="pub fn pack_size(&self) -> u32", within="impl IndexPack {", ret_name="r",
+         wrap_open="impl IndexPack {", wrap_close="}",
+         functions=["repofile::indexfile::IndexPack::pack_size"],
+         rewrites=[Rw("pub fn pack_size(&self) -> u32", "pub fn pack_size_checked(&self) -> u32", sig=True, why="renamed in the verified file only: the prelude's stub of the same name (its contract = this unit's postcondition) serves the callers"),
+                   Rw(r"self\.size\s*\.unwrap_or_else\(\|\| (?P<b>[^;]*)\)(?=\s*\}?\s*\Z)", r"(match self.size { Some(vs) => vs, None => \g<b> })", regex=True,
+                      why="Option::unwrap_or_else(|| body) -> match (definition, body verbatim)")],
+         contract="""
+    requires
+        self.size is None ==> 36 + sum_len(self.blobs@, self.blobs@.len() as int) + hdr_sum(self.blobs@, self.blobs@.len() as int) <= u32::MAX,
+    ensures
+        /*@index_pack_size_is_recorded_or_derived_from_the_layout*/ r == (match self.size { Some(s) => s as int, None => 36 + sum_len(self.blobs@, self.blobs@.len() as int) + hdr_sum(self.blobs@, self.blobs@.len() as int) }),
+        r == pack_size_spec(*self),
+"""),
+]
+
+UNITS += [
     Unit(name="actor_pack_id", file=PK, kind="block", within="fn new<BE: DecryptWriteBackend>(\n        fwh: FileWriterHandle<BE>,",
          anchor="@closure:.map(|(file, index): (BytesList, IndexPack)|",
          block_sig="fn actor_pack_id(file: BytesList, index: IndexPack) -> (r: (BytesList, PackId, IndexPack))",
